@@ -6,7 +6,7 @@
     PublisherConfig, every answer script of the wrapped publisher, every sequence of calls over a
     heap of (possibly re-published) objects, every emit/Ack/Nack/Close sequence, every sequence of
     handler outcomes. *)
-From WM Require Import Base.Prelude Message.Model Handler.RouterHandle Decor.RouterMetrics Decor.Model Decor.Monitor Decor.Heap Decor.Proofs Decor.SubProofs Decor.SubAccept Decor.HeapProofs Decor.HeapRefine Decor.HeapCount Decor.MwStack Decor.MwStackProofs.
+From WM Require Import Base.Prelude Message.Model Handler.RouterHandle Decor.RouterMetrics Decor.Model Decor.Monitor Decor.Heap Decor.Proofs Decor.SubProofs Decor.SubAccept Decor.HeapProofs Decor.HeapRefine Decor.HeapCount Decor.HeapTrail Decor.MwStack Decor.MwStackProofs.
 
 (** ** publisher decorators are transparent *)
 
@@ -218,6 +218,25 @@ Theorem C20_publish_inplace_model_accepted : forall st heap script calls tab,
   pub_monitor_any st (pobs_run_h st (PS heap script [] [] []) calls) tab = true.
 Proof. exact pub_monitor_any_model_all. Qed.
 
+(** the trail on a repeated object: in a call that reaches the wrapped publisher every object has
+    been through every transform of the stack once per POSITION it occupies in the batch *)
+Theorem C20_duplicates_trail_multiplicity : forall st script topic idx h,
+  hvalid_all h idx ->
+  inner_calls (ho_ev (publish_h st script topic idx h)) <> [] ->
+  forall i m, nth_error h i = Some m ->
+  exists m', nth_error (ho_heap (publish_h st script topic idx h)) i = Some m'
+             /\ pm_trail m' = pm_trail m ++ tag_block (count_nat i idx) (transform_tags st).
+Proof. exact publish_h_trails. Qed.
+
+(** the COMPLETE acceptor of publisher cases ([pub_monitor_full] = [pub_monitor_any] + the trail
+    clause with multiplicities, [trail_ok_dup]) accepts every run of the in-place model over a heap of
+    objects with distinct identities: any stack, script, call sequence, repeated objects or not *)
+Theorem C20_publish_full_model_accepted : forall st heap script calls tab,
+  NoDup (map pm_id heap) -> valid_calls (length heap) calls ->
+  counts_agree plabel_eqb tab (ps_obs (prun_h st heap script calls)) = true ->
+  pub_monitor_full st (pobs_run_h st (PS heap script [] [] []) calls) tab = true.
+Proof. exact pub_monitor_full_model. Qed.
+
 (** ** a wrapped publisher that panics (script answer [e_panic]) *)
 Theorem C20_publish_panic_escapes : forall st script topic msgs,
   stack_reject st msgs = None -> hd None script = Some e_panic ->
@@ -306,6 +325,16 @@ Proof. exact srun_counts. Qed.
     sequence incl. re-deliveries — is accepted by the acceptor that judges the implementation:
     delivery order, one transform pass per delivery, final settlements, Close, counter table *)
 Theorem C20_subscribe_model_accepted : forall stk heap ops crets tab,
+  forallb sfresh heap = true ->
+  length crets = count_closes ops ->
+  counts_agree slabel_eqb tab (map sobs_label (sw_obs (srun stk heap ops))) = true ->
+  sub_monitor stk heap ops (sseen_of_run stk heap ops crets tab) = true.
+Proof. exact sub_monitor_model. Qed.
+
+(** (same statement under the name DESIGN section 9 uses) the list-level acceptor [sub_monitor] accepts
+    every trace of the subscriber model that starts from fresh objects — which is every trace the
+    harness can produce: objects enter a case unmarked and without pending watchers *)
+Theorem C20_subscriber_model_accepted : forall stk heap ops crets tab,
   forallb sfresh heap = true ->
   length crets = count_closes ops ->
   counts_agree slabel_eqb tab (map sobs_label (sw_obs (srun stk heap ops))) = true ->
@@ -404,6 +433,8 @@ Print Assumptions C20_inplace_refines.
 Print Assumptions C20_inplace_sequence_refines.
 Print Assumptions C20_duplicates_transparent.
 Print Assumptions C20_duplicates_acceptor.
+Print Assumptions C20_duplicates_trail_multiplicity.
+Print Assumptions C20_publish_full_model_accepted.
 Print Assumptions C20_inplace_counted_once.
 Print Assumptions C20_inplace_simulates.
 Print Assumptions C20_publish_inplace_model_accepted.
@@ -418,6 +449,7 @@ Print Assumptions C20_subscriber_close_once.
 Print Assumptions C20_received_counted_once.
 Print Assumptions C20_received_table_counts.
 Print Assumptions C20_subscribe_model_accepted.
+Print Assumptions C20_subscriber_model_accepted.
 Print Assumptions C20_router_publisher_panics.
 Print Assumptions C20_router_metrics.
 Print Assumptions C20_handler_counted_once.
